@@ -695,3 +695,24 @@ fire('C13', 'machine-interrupts-belt-process', 'C13.R5', 'Machine.worker',
      lambda p: M.insert_after(p, N_MAC, 'Machine.worker', M.stmt_calling('self._update_avg_time_spent_in_processing'), 'self.env.active_process.interrupt("x")'))
 silent('C13', 'belt-handler-extra-logging',
        lambda p: M.insert_before(p, S_BELT, 'BeltStore.move_to_ready_items', M.assign_to('remaining_phase1_time'), 'print("interrupted")', which=2))
+
+# behaviour-preserving rewrites added after review of likely false alarms
+silent('C04', 'buffer-get-trigger-only-when-someone-waits',
+       lambda p: M.replace_node(p, S_BUF, 'BufferStore.get', M.stmt_calling('self._trigger_reserve_put'),
+                                'if self.reserve_put_queue:\n    self._trigger_reserve_put(None)'))
+silent('C04', 'fleet-ready-trigger-only-when-someone-waits',
+       lambda p: M.replace_node(p, S_FLT, 'FleetStore.move_to_ready_items', M.stmt_calling('self._trigger_reserve_get'),
+                                'if len(self.reserve_get_queue) > 0:\n    self._trigger_reserve_get(None)'))
+fire('C04', 'buffer-get-trigger-only-when-nobody-waits', 'C04.R1', 'BufferStore',
+     lambda p: M.replace_node(p, S_BUF, 'BufferStore.get', M.stmt_calling('self._trigger_reserve_put'),
+                              'if not self.reserve_put_queue:\n    self._trigger_reserve_put(None)'))
+fire('C01', 'bufferstore-base-capacity-plus-one', 'C01.O6', 'BufferStore.__init__',
+     lambda p: M.replace_node(p, S_BUF, 'BufferStore.__init__', M.is_call('.__init__'), 'super().__init__(env, capacity + 1)'))
+fire('C20', 'continuous-get-event-not-rearmed', 'C20.R8', 're-arms(self.get_events_available)',
+     lambda p: M.delete_stmt(p, E_CC, 'ConveyorBelt.behaviour', M.assign_to('self.get_events_available')))
+fire('C20', 'continuous-ready-event-not-rearmed', 'C20.R8', 're-arms(self.belt.ready_item_event)',
+     lambda p: M.delete_stmt(p, E_CC, 'ConveyorBelt.behaviour', M.assign_to('self.belt.ready_item_event')))
+fire('C20', 'slotted-arrival-event-not-rearmed', 'C20.R8', 're-arms(self.item_arrival_event)',
+     lambda p: M.delete_stmt(p, E_SC, 'ConveyorBelt.behaviour', M.assign_to('self.item_arrival_event')))
+fire('C20', 'fleet-activation-event-not-rearmed', 'C20.R8', 're-arms(self.activate_fleet)',
+     lambda p: M.delete_stmt(p, S_FLT, 'FleetStore.fleet_activation_process', M.assign_to('self.activate_fleet')))
